@@ -84,6 +84,15 @@ M = [
  ("m28-position-index-prefix-pos-offset", P+"index/position_index.py",
   "                self.index.get(token).append((row_id, pos))",
   "                self.index.get(token).append((row_id, pos + (1 if num_tokens > 9 else 0)))"),
+ ("m29-token-order-hash-dependent", P+"utils/token_ordering.py",
+  "    ordered_tokens = sorted(list(token_freq_dict.items()), key=itemgetter(0))\n\n    token_ordering = {}\n    order_idx = 1",
+  "    ordered_tokens = list(set(token_freq_dict.items()))\n\n    token_ordering = {}\n    order_idx = 1"),
+ ("m30-join-sorts-left-table-inplace", P+"join/dice_join_py.py",
+  "    # remove redundant attrs from output attrs.\n",
+  "    if len(ltable) > 3:\n        ltable.sort_values(l_join_attr, inplace=True)\n\n    # remove redundant attrs from output attrs.\n"),
+ ("m31-default-tokenizer-qval-drift", P+"join/edit_distance_join_py.py",
+  "    # convert threshold to integer (incase if it is float)\n",
+  "    if threshold > 2 and tokenizer.qval < 3:\n        tokenizer.qval += 1\n\n    # convert threshold to integer (incase if it is float)\n"),
 ]
 os.makedirs(OUT, exist_ok=True)
 for name, path, old, new in M:
